@@ -764,10 +764,14 @@ Proof.
     destruct (call_install F n np e3) as [ok e4] eqn:Hi.
     assert (O13 : obs_eq e e3) by (eapply obs_eq_trans; [eapply obs_eq_trans|]; eassumption).
     apply call_install_spec in Hi. destruct Hi as (P4 & K4 & L4 & I4 & _).
-    apply IH in H. destruct H as (P5 & K5 & L5 & I5 & new & Hn & Fn).
+    remember (if ok then set_disk e4 (rg ++ [new_svc n np mport rpc (a_first o)]) else e4) as e4' eqn:He4'.
+    assert (D4 : eos e4' = eos e4 /\ ekilled e4' = ekilled e4 /\ elied e4' = elied e4) by (subst e4'; destruct ok; repeat split).
+    destruct D4 as (D1 & D2 & D3).
+    assert (E4 : forall m, inste e4' m = inste e4 m) by (intros m; unfold inste; rewrite D1; reflexivity).
+    apply IH in H. destruct H as (P5 & K5 & L5 & I5 & new & Hn & Fn). rewrite D1 in P5.
     destruct O13 as (Q1 & Q2 & Q3 & Q4).
     splits; try congruence.
-    + intros m Hm. rewrite I5 by lia. rewrite I4 by lia. unfold inste, is_installed. rewrite Q2. reflexivity.
+    + intros m Hm. rewrite I5 by lia. rewrite E4. rewrite I4 by lia. unfold inste, is_installed. rewrite Q2. reflexivity.
     + destruct ok.
       * exists (new_svc n np mport rpc (a_first o) :: new). rewrite Hn. rewrite <- app_assoc. split; [reflexivity|].
         apply fresh_from_cons; auto.
@@ -811,11 +815,19 @@ Proof.
   - apply IH; [assumption|]. intros s Hs. apply LT. right. exact Hs.
 Qed.
 
+(* `antctl add` starts from the registry file = the in-memory registry *)
+Lemma add_step_spec F first_number a w c names rg e' :
+  add_node_from F first_number a (reg w) (set_disk (wenv w) (reg w)) = (c, names, rg, e') ->
+  procs (eos e') = procs (eos (wenv w)) /\ ekilled e' = ekilled (wenv w) /\ elied e' = elied (wenv w) /\
+  (forall m, m < first_number -> inste e' m = inste (wenv w) m) /\
+  exists new, rg = reg w ++ new /\ fresh_from first_number new.
+Proof. intros H. apply add_node_from_spec in H. exact H. Qed.
+
 Lemma add_inv F a w w' c : Inv w -> step F w (OAdd a) = (w', c) -> Inv w'.
 Proof.
   intros [ND FA] H. cbn [step] in H. unfold add_node in H.
-  destruct (add_node_from F (max_number (reg w) + 1) a (reg w) (wenv w)) as [[[c0 names] rg] e] eqn:Ha.
-  inversion H; subst. clear H. apply add_node_from_spec in Ha.
+  destruct (add_node_from F (max_number (reg w) + 1) a (reg w) (set_disk (wenv w) (reg w))) as [[[c0 names] rg] e] eqn:Ha.
+  inversion H; subst. clear H. apply add_step_spec in Ha.
   destruct Ha as (P & K & L & I & new & -> & Fn). split; cbn [reg wenv].
   - eapply NoDup_app_fresh; [exact ND| |exact Fn]. intros s Hs. pose proof (max_number_ge _ _ Hs). lia.
   - apply Forall_app. split.
@@ -896,7 +908,7 @@ Proof.
     destruct (P _ _ _ _ _ Hf) as (_ & T & _). apply T. exact L. }
   destruct o; cbn [step] in H.
   - unfold add_node in H. destruct (add_node_from _ _ _ _ _) as [[[c0 names] rg] e] eqn:Ha. inversion H; subst.
-    apply add_node_from_spec in Ha. destruct Ha as (_ & _ & LL & _). cbn [wenv]. congruence.
+    apply add_step_spec in Ha. destruct Ha as (_ & _ & LL & _). cbn [wenv]. congruence.
   - eapply OS; [apply mgr_start_props|exact H].
   - eapply OS; [apply mgr_stop_props|exact H].
   - eapply OS; [apply mgr_remove_props|exact H].
@@ -987,8 +999,8 @@ Proof. intros H. rewrite nth_error_app1; [exact H|]. apply nth_error_Some. congr
 Lemma add_J F a w w' c : Jw w -> step F w (OAdd a) = (w', c) -> Jw w' /\ keeps_removed w w'.
 Proof.
   intros J H. cbn [step] in H. unfold add_node in H.
-  destruct (add_node_from F (max_number (reg w) + 1) a (reg w) (wenv w)) as [[[c0 names] rg] e] eqn:Ha.
-  inversion H; subst. clear H. apply add_node_from_spec in Ha.
+  destruct (add_node_from F (max_number (reg w) + 1) a (reg w) (set_disk (wenv w) (reg w))) as [[[c0 names] rg] e] eqn:Ha.
+  inversion H; subst. clear H. apply add_step_spec in Ha.
   destruct Ha as (P & _ & _ & I & new & -> & (Fn & _)). cbn [reg wenv]. split.
   - intros s Hs R. apply in_app_or in Hs. destruct Hs as [Hs|Hs].
     + destruct (J s Hs R) as (A & B). cbn [wenv]. split.
@@ -1199,7 +1211,7 @@ Proof.
     - rewrite (nth_error_app_other l1 l2 s2 s i NE). eauto. }
   destruct o; cbn [step] in H.
   - unfold add_node in H. destruct (add_node_from _ _ _ _ _) as [[[c0 names] rg] e] eqn:Ha. inversion H; subst.
-    apply add_node_from_spec in Ha. destruct Ha as (_ & _ & _ & _ & new & -> & (Fn & _)). cbn [reg] in Hi.
+    apply add_step_spec in Ha. destruct Ha as (_ & _ & _ & _ & new & -> & (Fn & _)). cbn [reg] in Hi.
     destruct (nth_error (reg w) i) as [s|] eqn:E.
     + rewrite (nth_error_app_some _ new _ _ E) in Hi. inversion Hi; subst. eauto.
     + apply nth_error_None in E. rewrite nth_error_app2 in Hi by exact E. apply nth_error_In in Hi.
@@ -1231,19 +1243,20 @@ Proof.
 Qed.
 
 Lemma port_conflict_lemma F w a q w' c : In q (all_ports (reg w)) -> requests a q ->
-  step F w (OAdd a) = (w', c) -> is_ok c = false /\ w' = w.
+  step F w (OAdd a) = (w', c) ->
+  is_ok c = false /\ reg w' = reg w /\ wenv w' = set_disk (wenv w) (reg w).
 Proof.
   intros Hq (pr & Hpr & Hin) H. cbn [step] in H. unfold add_node, add_node_from in H.
   destruct w as [rg e]. cbn [reg wenv] in *.
-  destruct (a_first a && (1 <? match a_count a with Some c0 => c0 | None => 1 end)); [inversion H; subst; split; reflexivity|].
-  destruct (a_first a && existsb first rg); [inversion H; subst; split; reflexivity|].
+  destruct (a_first a && (1 <? match a_count a with Some c0 => c0 | None => 1 end)); [inversion H; subst; repeat split|].
+  destruct (a_first a && existsb first rg); [inversion H; subst; repeat split|].
   set (count := match a_count a with Some c0 => c0 | None => 1 end) in *.
   destruct (check_opt (a_node a) count rg) as [c1|] eqn:C1.
-  { inversion H; subst. split; [eapply check_opt_codes; exact C1|reflexivity]. }
+  { inversion H; subst. split; [eapply check_opt_codes; exact C1|split; reflexivity]. }
   destruct (check_opt (a_metrics a) count rg) as [c2|] eqn:C2.
-  { inversion H; subst. split; [eapply check_opt_codes; exact C2|reflexivity]. }
+  { inversion H; subst. split; [eapply check_opt_codes; exact C2|split; reflexivity]. }
   destruct (check_opt (a_rpc a) count rg) as [c3|] eqn:C3.
-  { inversion H; subst. split; [eapply check_opt_codes; exact C3|reflexivity]. }
+  { inversion H; subst. split; [eapply check_opt_codes; exact C3|split; reflexivity]. }
   exfalso. destruct Hpr as [E|[E|E]]; rewrite E in *;
     destruct (check_opt_conflict pr count rg q Hq Hin) as (c0 & X & _); congruence.
 Qed.
@@ -1415,3 +1428,58 @@ Proof.
       [destruct Hc as [->| ->]; discriminate|exact Hn|].
     destruct (mgr_upgrade_nostart_record _ _ _ _ _ _ _ _ _ _ (FA s Hs) Hf Hc). auto.
 Qed.
+
+(* ================================================================ add_node saves every service it records *)
+Lemma call_port_disk F e r e' : call_port F e = (r, e') -> edisk e' = edisk e.
+Proof. intros H. tick_cases H. destruct (memN (enc e) F); inversion H; subst; reflexivity. Qed.
+
+Lemma call_install_disk F n port e ok e' : call_install F n port e = (ok, e') -> edisk e' = edisk e.
+Proof. intros H. tick_cases H. destruct (memN (enc e) F); inversion H; subst; reflexivity. Qed.
+
+Lemma add_loop_disk F o fuel : forall n np mp rp rg e added failed c names rg' e',
+  edisk e = rg -> add_loop F o fuel n np mp rp rg e added failed = (c, names, rg', e') -> edisk e' = rg'.
+Proof.
+  induction fuel as [|fuel IH]; intros n np mp rp rg e added failed c names rg' e' D H.
+  - cbn [add_loop] in H. inversion H; subst. reflexivity.
+  - cbn [add_loop] in H.
+    destruct (match rp with Some p => (Some p, e) | None => call_port F e end) as [rpo e1] eqn:H1.
+    assert (D1 : edisk e1 = rg).
+    { destruct rp; [inversion H1; subst; reflexivity|]. rewrite (call_port_disk _ _ _ _ H1). exact D. }
+    destruct rpo as [rpc|]; [|inversion H; subst; exact D1].
+    destruct (match mp with
+              | Some p => (Some (Some p), e1)
+              | None => if a_enable_metrics o
+                        then let '(x, e'0) := call_port F e1 in (option_map Some x, e'0)
+                        else (Some None, e1)
+              end) as [mpo e2] eqn:H2.
+    assert (D2 : edisk e2 = rg).
+    { destruct mp; [inversion H2; subst; exact D1|]. destruct (a_enable_metrics o).
+      - destruct (call_port F e1) as [x e0] eqn:Hc. inversion H2; subst. rewrite (call_port_disk _ _ _ _ Hc). exact D1.
+      - inversion H2; subst. exact D1. }
+    destruct mpo as [mport|]; [|inversion H; subst; exact D2].
+    destruct (call_install F n np (mkdirs n e2)) as [ok e4] eqn:Hi.
+    apply call_install_disk in Hi. cbn [mkdirs edisk set_os] in Hi.
+    eapply IH; [|exact H]. destruct ok; [reflexivity|]. rewrite Hi. exact D2.
+Qed.
+
+Lemma add_saves_lemma F w a w' c : step F w (OAdd a) = (w', c) -> edisk (wenv w') = reg w'.
+Proof.
+  cbn [step]. unfold add_node, add_node_from. intros H.
+  set (e0 := set_disk (wenv w) (reg w)) in *.
+  assert (SAME : forall c0, (let '(c1, _, rg, e) := (c0, @nil N, reg w, e0) in (mkW rg e, c1)) = (w', c) -> edisk (wenv w') = reg w').
+  { intros c0 X. inversion X; subst. reflexivity. }
+  destruct (a_first a && (1 <? match a_count a with Some c0 => c0 | None => 1 end)); [eapply SAME; exact H|].
+  destruct (a_first a && existsb first (reg w)); [eapply SAME; exact H|].
+  destruct (check_opt (a_node a) _ (reg w)); [eapply SAME; exact H|].
+  destruct (check_opt (a_metrics a) _ (reg w)); [eapply SAME; exact H|].
+  destruct (check_opt (a_rpc a) _ (reg w)); [eapply SAME; exact H|].
+  destruct (add_loop F a _ _ _ _ _ (reg w) e0 [] false) as [[[c0 names] rg] e] eqn:Ha.
+  inversion H; subst. cbn [reg wenv]. eapply add_loop_disk; [|exact Ha]. reflexivity.
+Qed.
+
+(* the legacy shape "save once after the loop" loses recorded services on an early return: witness kept as a
+   computation on the model with the per-service save removed is not expressible here (the model IS the code
+   with the save); the failing run of the seeded variant is in notes/C19.md *)
+Example ex_batch_add_aborted : let '(w, c) := step [2] init (OAdd (mkAdd (Some 2) None None None false false)) in
+  c = C_ADD_ABORTED /\ map number (reg w) = [1] /\ map number (edisk (wenv w)) = [1] /\ is_installed (eos (wenv w)) 1 = true.
+Proof. vm_compute. repeat split. Qed.
